@@ -72,23 +72,24 @@ CHECKS.update({
 
 # families added after the fourth seeding round (DESIGN.md section 9) and the models added late (Align.v, Select.v)
 EXTRA_TECH = {
- "C01": "; Select.v rewrite-rule theorems (head / partitions push-down, Head(SortValues) -> NFirst); concat-selection family c01_concat.py vs the unoptimized plan",
+ "C01": "; positional row-selection chains (c01_rows.py); Select.v rewrite-rule theorems (head / partitions push-down, Head(SortValues) -> NFirst); concat-selection family c01_concat.py vs the unoptimized plan",
  "C02": "; Select.v nfirst_tree_correct (n smallest rows for every partitioning, exact); reduction trees at every depth (reduce_layer.py), T-LAYER align_layer / select_layer",
- "C03": "; reader hand-over family c03_reader.py (predicate trees over reader-expressible and other atoms, both parquet readers)",
- "C05": "; reader-option objects embedded in read tasks (c05_readers.py, private-inputs executor)",
- "C06": "; Align.v divisions theorems with T-LAYER align_layer",
- "C07": "; column selections absorbed by 22 source variants (c07_sources.py), node-by-node declared vs computed schema",
+ "C03": "; filters crossing reset_index (c03_reset.py); reader hand-over family c03_reader.py (predicate trees over reader-expressible and other atoms, both parquet readers)",
+ "C04": "; labels of column-wise statistics (c04_labels.py)",
+ "C05": "; hash partitioning by keys with a second consumer of the keys (c05_keys.py); reader-option objects embedded in read tasks (c05_readers.py, private-inputs executor)",
+ "C06": "; divisions computed from ordered data (c06_resolve.py); Align.v divisions theorems with T-LAYER align_layer",
+ "C07": "; concat lowering paths (c07_concat.py); column selections absorbed by 22 source variants (c07_sources.py), node-by-node declared vs computed schema",
  "C08": "; histories of queries sharing argument objects vs a fresh interpreter (c08_alias.py)",
- "C09": "; groupby plans (c09_groupby.py) with deep planner-object scan and cloudpickle under the no-serialize guard",
- "C10": "; count / distinct reductions with NA-handling options under every knob setting (c10_counts.py)",
- "C11": "; Select.v lowering theorems for head / tail with T-LAYER select_layer (shape of the lowered expression and rows vs the extracted model)",
+ "C09": "; repartition layers on explicit uneven layouts (c09_repartition.py); groupby plans (c09_groupby.py) with deep planner-object scan and cloudpickle under the no-serialize guard",
+ "C10": "; sorting under the execution knobs (c10_sorts.py); count / distinct reductions with NA-handling options under every knob setting (c10_counts.py)",
+ "C11": "; head / tail of sorted frames as tree reductions over 1-70 partitions (c11_sorted.py); Select.v lowering theorems for head / tail with T-LAYER select_layer (shape of the lowered expression and rows vs the extracted model)",
  "C12": "; joins as consumers of co-location (c12_joins.py) and the contract sweep of the splitting functions",
  "C13": "; repartitioning of derived collections (c13_hist.py)",
- "C15": "; T-GEN global_state_reviewed; sessions on shared sub-expressions (c15_shared.py)",
- "C16": "; T-GEN global_state_reviewed; queries planned under an ambient configuration (c16_ambient.py)",
- "C17": "; cuts in front of a multi-input step (c17_multi.py)",
+ "C15": "; sessions over sibling queries with almost-equal operands (c15_siblings.py); T-GEN global_state_reviewed; sessions on shared sub-expressions (c15_shared.py)",
+ "C16": "; option-carrying operators pickled before and after use (c16_groupby.py); T-GEN global_state_reviewed; queries planned under an ambient configuration (c16_ambient.py)",
+ "C17": "; keyword steps after a cut over the four alignment lowerings (c17_kwargs.py); cuts in front of a multi-input step (c17_multi.py)",
  "C18": "; parquet piece layouts (c18_layout.py: row groups, split_row_groups, aggregate_files, blocksize, lengths)",
- "C19": "; parquet plan histories (c19_parquet.py)",
+ "C19": "; consumers of the rows of row-wise combinations: termination / determinism / idempotence (c19_rowcount.py); parquet plan histories (c19_parquet.py)",
 }
 
 def main():
